@@ -43,6 +43,10 @@ CLAIMED['C12'] = dict(
    text='Machine-checked theorems on Dispatch.__call__ regenerated from _dispatch.py, for every registry of implementations, function table, arguments and fuel: the outcome is that of the first implementation, in registration order, that does not fail with a PreContractError of its own function; later implementations are not called; if all mismatch, NoMatchError lists one failure per implementation in order; any other exception (custom-typed precondition errors, precondition errors of deeper calls) propagates; the switch is forced on during the search and restored. Tied to the code by regeneration, differential execution over random registries and an independent monitor.',
    design_ref='DESIGN.md 4.12', note=GENERIC_NOTE,
    technique='Coq proof over code regenerated from source + differential correspondence + monitor')
+CLAIMED['C13'] = dict(
+   text='Generators: machine-checked theorem on the wrapper loop regenerated from _run_iter: every iteration, from resumption to the next suspension or to the error that ends it, hands the switch and the streams back as it found them, so between the steps of any interleaving the globals are original. Coroutines: machine-checked REFUTATION on the current tree (a has() patch spans the awaits) -- a known finding. All interleavings of the steps of 2-3 live contracted generators / coroutines (exhaustive in the thorough tier) are executed on model and implementation and compared task by task with the sequential schedule. Preemptive threads are outside the model: a deterministic two-thread probe on the implementation exhibits the known race.',
+   design_ref='DESIGN.md 4.13', note=GENERIC_NOTE + ' Partial: CPython thread scheduling is not modelled; per-task outcome independence is decided by exhaustive schedule enumeration, not by a theorem.',
+   technique='Coq proof over the wrapper loop regenerated from source + exhaustive interleaving correspondence')
 UNCLAIMED_REASON = 'not claimed yet: the Coq model and check for this property are still under construction in this round (no technique switch intended)'
 checks, na = [], []
 for p in props:
